@@ -23,6 +23,14 @@ PAIRS = {  # forward primitive -> inverse as a function of y
     "jax.numpy.tanh": lambda y: ("call", ("ext", "jax.numpy.arctanh"), (), (("a", y),)),
     "jax.nn.softplus": lambda y: mk_add((("call", ("ext", "jax.numpy.log"), (), (("a", mk_neg(("call", ("ext", "jax.numpy.expm1"), (), (("a", mk_neg(y)),)))),)), y)),
     "jax.numpy.flip": lambda y: ("call", ("ext", "jax.numpy.flip"), (), (("m", y),)),
+    # further total bijections a new elementwise class may use
+    "jax.numpy.log": lambda y: ("call", ("ext", "jax.numpy.exp"), (), (("a", y),)),
+    "jax.numpy.arctanh": lambda y: ("call", ("ext", "jax.numpy.tanh"), (), (("a", y),)),
+    "jax.numpy.sinh": lambda y: ("call", ("ext", "jax.numpy.arcsinh"), (), (("a", y),)),
+    "jax.numpy.arcsinh": lambda y: ("call", ("ext", "jax.numpy.sinh"), (), (("a", y),)),
+    "jax.numpy.cbrt": lambda y: ("pow", y, C(3)),
+    "jax.numpy.expm1": lambda y: ("call", ("ext", "jax.numpy.log1p"), (), (("a", y),)),
+    "jax.numpy.log1p": lambda y: ("call", ("ext", "jax.numpy.expm1"), (), (("a", y),)),
 }
 
 
@@ -57,6 +65,8 @@ def invert(t, y):
         if len(ds) != 1:
             return None
         return invert(ds[0], PAIRS[t[1][1]](y))
+    if tag == "pow" and dep(t[1]) and t[2] == C(3):
+        return invert(t[1], ("call", ("ext", "jax.numpy.cbrt"), (), (("a", y),)))
     if tag == "sub" and t[1] == X and t[2] == ("attr", SELF, "permutation"):
         return ("sub", y, ("attr", SELF, "inverse_permutation"))
     return None
@@ -92,6 +102,38 @@ def rule_pair(prog: Program, rep: Report):
                          f"inverse is {show(I, 160)} but inverting transform = {show(T, 120)} gives {show(inv, 160)}: "
                          f"{explain(I, inv)}")
     _leaky(prog, rep)
+    # classes added since the table was confirmed: a leaf that is neither delegating nor covered by a dedicated rule
+    # gets the same generic proof attempt; without one the inverse of that class is not vouched for
+    from ..eqterms import child_methods
+    from .bij import bijection_classes, is_stub
+    from .c01 import ITERATIVE
+    special = set(LEAVES) | set(ITERATIVE) | {
+        "flowjax.bijections.tanh.LeakyTanh", "flowjax.bijections.rational_quadratic_spline.RationalQuadraticSpline",
+        "flowjax.bijections.planar._UnconditionalPlanar", "flowjax.bijections.block_autoregressive_network._CallableToBijection"}
+    for c in bijection_classes(prog):
+        if c.qualname in special:
+            continue
+        T, I = method_term(prog, c, "transform"), method_term(prog, c, "inverse")
+        if is_stub(T) or is_stub(I) or child_methods(T) or child_methods(I):
+            continue   # delegating classes: C01.mirror
+        site = method_site(prog, c, "inverse")
+        k = f"{c.qualname}.inverse==transform^-1"
+        inv = None if has_unknown(T) or has_unknown(I) else invert(T, X)
+        ok = False
+        if inv is not None:
+            try:
+                ok = equal(inv, I)
+            except Inconclusive:
+                ok = False
+        if ok:
+            rep.holds("C01.pair", site, k, show(I, 120))
+        elif inv is not None:
+            rep.violated("C01.pair", site, k, f"inverse is {show(I, 160)} but inverting transform = {show(T, 120)} gives "
+                                              f"{show(inv, 160)}")
+        else:
+            rep.undecided("C01.pair", site, k, f"{c.qualname} is a leaf bijection outside the confirmed table and its "
+                                               f"transform {show(T, 120)} cannot be inverted by the pair table: no proof "
+                                               f"that inverse undoes transform")
 
 
 def _where(t):
